@@ -8,7 +8,7 @@
    Loops, conditionals, routines, zones and matrix blocks are outside this theorem (they are
    covered by the oracle and correspondence runs). *)
 From Coq Require Import ZArith String List Bool Lia.
-From Bardolph Require Import Gen.Codes Lang.Value Lang.Instr Lang.Loader Lang.World Lang.Units0 Lang.Regs Lang.Devices
+From Bardolph Require Import Gen.Codes Lang.Value Lang.Instr Lang.Loader Lang.World Lang.Units0 Lang.Regs Lang.Devices Lang.Scope
   Lang.Machine Lang.Syntax Lang.Sem Lang.CodeGen Lang.ExprCompile.
 Open Scope string_scope.
 Open Scope list_scope.
@@ -210,11 +210,43 @@ Record sim (ss : sstate) (s : mstate) : Prop := mkSim {
   sim_regs : agree (m_regs s) (s_regs ss);
   sim_full : regs_full (s_regs ss);
   sim_globals : m_globals s = s_globals ss;
-  sim_frames : loops_only (m_frames s) = true;
-  sim_locals : s_locals ss = None;
+  sim_vars : vars_of (m_frames s) = s_locals ss;          (* the variables of the call in progress, if any *)
+  sim_settled : settled (m_frames s) = true;               (* no call is being set up *)
   sim_world : m_world s = s_world ss;
   sim_unnamed : m_unnamed s = []
 }.
+
+(* frames up to the dictionary of the call in progress (the innermost entered call frame): an assignment inside a
+   routine changes that dictionary and nothing else -- the loop frames above it and everything below it stay as they are *)
+Fixpoint erase (fs : frames) : frames :=
+  match fs with
+  | [] => []
+  | FLoop lv d :: r => FLoop lv d :: erase r
+  | FCall _ true ra :: r => FCall [] true ra :: r
+  | FCall p false ra :: r => FCall p false ra :: erase r
+  end.
+Definition fr (s : mstate) : frames := erase (m_frames s).
+
+Lemma erase_upd_params fs f : settled fs = true -> erase (upd_params fs f) = erase fs.
+Proof. induction fs as [|[p [|] ra|lv d] t IH]; cbn [settled upd_params erase]; intros H; try reflexivity; try discriminate. f_equal. exact (IH H). Qed.
+Lemma erase_upd_vars fs f fs' : upd_vars fs f = Some fs' -> erase fs' = erase fs.
+Proof.
+  revert fs'. induction fs as [|[p [|] ra|lv d] t IH]; cbn [upd_vars]; intros fs' H; try discriminate.
+  - injection H as <-. reflexivity.
+  - destruct (upd_vars t f) as [t'|]; [|discriminate]. injection H as <-. cbn [erase]. f_equal. apply IH. reflexivity.
+  - destruct (upd_vars t f) as [t'|]; [|discriminate]. injection H as <-. cbn [erase]. f_equal. apply IH. reflexivity.
+Qed.
+Lemma erase_put_var g fs y x : settled fs = true -> erase (snd (put_var g fs y x)) = erase fs.
+Proof.
+  intros Hs. unfold put_var. destruct (env_has (params_of fs) y); [apply erase_upd_params; exact Hs|].
+  destruct (env_has g y); [reflexivity|]. destruct (upd_vars fs (fun e => env_set e y x)) as [fs'|] eqn:E; [|reflexivity].
+  exact (erase_upd_vars fs _ fs' E).
+Qed.
+Lemma erase_loop_inv fs lv d r : erase fs = erase (FLoop lv d :: r) -> exists r', fs = FLoop lv d :: r' /\ erase r' = erase r.
+Proof.
+  destruct fs as [|[p [|] ra|lv' d'] t]; cbn [erase]; intros H; try discriminate.
+  injection H as Hl Hd Ht. subst. exists t. split; [reflexivity|exact Ht].
+Qed.
 
 Lemma regs_full_set rf r v : regs_full rf -> regs_full (rf_set rf r v).
 Proof.
@@ -224,13 +256,34 @@ Proof.
 Qed.
 
 Lemma sim_lookup ss s x : sim ss s -> get_var (m_globals s) (m_frames s) x = lookup ss x.
-Proof. intros H. unfold get_var, lookup. rewrite (vars_of_loops _ (sim_frames _ _ H)), (sim_locals _ _ H), (sim_globals _ _ H). reflexivity. Qed.
+Proof. intros H. unfold get_var, lookup. rewrite (sim_vars _ _ H), (sim_globals _ _ H). reflexivity. Qed.
 
 Lemma sim_get_reg ss s r : sim ss s -> visible r = true -> get_reg s r = Ok (rreg (s_regs ss) r).
 Proof.
   intros H Hv. assert (Hn : register_eqb r R_PC = false) by (destruct r; try reflexivity; discriminate).
   rewrite (get_reg_not_pc s r Hn). unfold rg_vm, rreg. rewrite (sim_regs _ _ H r Hv).
   pose proof (sim_full _ _ H r Hv) as Hf. destruct (rf_get (s_regs ss) r); [reflexivity|contradiction].
+Qed.
+
+(* what reading needs: the same correspondence without the demand that no call is being set up (while the arguments of
+   a call are evaluated a frame under construction lies on top; it is invisible to reads) *)
+Record simr (ss : sstate) (s : mstate) : Prop := mkSimr {
+  simr_regs : agree (m_regs s) (s_regs ss);
+  simr_full : regs_full (s_regs ss);
+  simr_globals : m_globals s = s_globals ss;
+  simr_vars : vars_of (m_frames s) = s_locals ss;
+  simr_world : m_world s = s_world ss;
+  simr_unnamed : m_unnamed s = []
+}.
+Lemma sim_simr ss s : sim ss s -> simr ss s.
+Proof. intros [Hr Hf Hg Hv Hst Hw Hu]. constructor; assumption. Qed.
+Lemma simr_lookup ss s x : simr ss s -> get_var (m_globals s) (m_frames s) x = lookup ss x.
+Proof. intros H. unfold get_var, lookup. rewrite (simr_vars _ _ H), (simr_globals _ _ H). reflexivity. Qed.
+Lemma simr_get_reg ss s r : simr ss s -> visible r = true -> get_reg s r = Ok (rreg (s_regs ss) r).
+Proof.
+  intros H Hv. assert (Hn : register_eqb r R_PC = false) by (destruct r; try reflexivity; discriminate).
+  rewrite (get_reg_not_pc s r Hn). unfold rg_vm, rreg. rewrite (simr_regs _ _ H r Hv).
+  pose proof (simr_full _ _ H r Hv) as Hf. destruct (rf_get (s_regs ss) r); [reflexivity|contradiction].
 Qed.
 
 Section Sim.
@@ -252,6 +305,20 @@ Proof.
   intros H. induction e as [l|m|x|r|g args|op a IHa b IHb|a IHa|a IHa|a IHa]; intros Hs Hr; cbn [supported regs_visible peval] in *; try reflexivity.
   - unfold rd_vm, rd_sem. rewrite (sim_lookup ss s x H). reflexivity.
   - unfold rg_vm, rg_sem, rreg. rewrite (sim_regs _ _ H r Hr). pose proof (sim_full _ _ H r Hr) as Hf.
+    destruct (rf_get (s_regs ss) r); [reflexivity|contradiction].
+  - apply andb_true_iff in Hs. destruct Hs as [Hsa Hsb]. apply andb_true_iff in Hr. destruct Hr as [Hra Hrb].
+    rewrite (IHa Hsa Hra), (IHb Hsb Hrb). reflexivity.
+  - rewrite (IHa Hs Hr). reflexivity.
+  - exact (IHa Hs Hr).
+  - exact (IHa Hs Hr).
+Qed.
+
+Lemma peval_simr e ss s : simr ss s -> supported mt e = true -> regs_visible e = true ->
+  peval mt (rd_vm s) (rg_vm s) e = peval mt (rd_sem ss) (rg_sem ss) e.
+Proof.
+  intros H. induction e as [l|m|x|r|g args|op a IHa b IHb|a IHa|a IHa|a IHa]; intros Hs Hr; cbn [supported regs_visible peval] in *; try reflexivity.
+  - unfold rd_vm, rd_sem. rewrite (simr_lookup ss s x H). reflexivity.
+  - unfold rg_vm, rg_sem, rreg. rewrite (simr_regs _ _ H r Hr). pose proof (simr_full _ _ H r Hr) as Hf.
     destruct (rf_get (s_regs ss) r); [reflexivity|contradiction].
   - apply andb_true_iff in Hs. destruct Hs as [Hsa Hsb]. apply andb_true_iff in Hr. destruct Hr as [Hra Hrb].
     rewrite (IHa Hsa Hra), (IHb Hsb Hrb). reflexivity.
@@ -291,26 +358,23 @@ Definition ok_dest (d : dest) (v : rval) : bool :=
 Definition put_vm (s : mstate) (d : dest) (x : value) (k : Z) : mstate :=
   match d with
   | DReg r => mkM (m_pc s + k) (rf_set (m_regs s) r x) (m_globals s) (m_frames s) (m_stack s) (m_unnamed s) (m_world s)
-  | DVar y => mkM (m_pc s + k) (m_regs s) (env_set (m_globals s) y x) (m_frames s) (m_stack s) (m_unnamed s) (m_world s)
+  | DVar y => let '(g, fs) := put_var (m_globals s) (m_frames s) y x in mkM (m_pc s + k) (m_regs s) g fs (m_stack s) (m_unnamed s) (m_world s)
   | _ => s
   end.
 
 Lemma put_dest_reg s r x : writable r = true -> put_dest s (PReg r) x = Ok (with_regs s (rf_set (m_regs s) r x)).
 Proof. destruct r; cbn; intros H; try reflexivity; discriminate. Qed.
 
-Lemma put_dest_var s y x : loops_only (m_frames s) = true -> put_dest s (PStr y) x = Ok (with_vars s (env_set (m_globals s) y x) (m_frames s)).
-Proof.
-  intros Hf. cbn [put_dest]. unfold put_var. rewrite (params_of_loops _ Hf), (upd_vars_loops _ _ Hf). cbn [env_has env_get].
-  destruct (env_has (m_globals s) y); reflexivity.
-Qed.
+Lemma put_dest_var s y x : put_dest s (PStr y) x = Ok (let '(g, fs) := put_var (m_globals s) (m_frames s) y x in with_vars s g fs).
+Proof. cbn [put_dest]. destruct (put_var (m_globals s) (m_frames s) y x). reflexivity. Qed.
 
 (* the effect of a store into an allowed destination *)
-Lemma put_dest_ok s d x k : loops_only (m_frames s) = true -> ok_dest d (RLit (LInt 0)) = true ->
+Lemma put_dest_ok s d x k : ok_dest d (RLit (LInt 0)) = true ->
   (do s' <- put_dest s (dest_param d) x; Ok (with_pc s' (m_pc s' + k))) = Ok (put_vm s d x k).
 Proof.
-  intros Hf Hd. destruct d as [r|y|lv|]; cbn [ok_dest] in Hd; try discriminate.
+  intros Hd. destruct d as [r|y|lv|]; cbn [ok_dest] in Hd; try discriminate.
   - rewrite andb_true_r in Hd. cbn [dest_param]. rewrite (put_dest_reg s r x Hd). reflexivity.
-  - cbn [dest_param]. rewrite (put_dest_var s y x Hf). reflexivity.
+  - cbn [dest_param put_vm]. rewrite (put_dest_var s y x). destruct (put_var (m_globals s) (m_frames s) y x). reflexivity.
 Qed.
 End Sim.
 
@@ -332,10 +396,10 @@ Proof.
   - cbn [Machine.exec i_op i_p0 i_p1 I2 dest_param]. rewrite Hp. reflexivity.
 Qed.
 
-Lemma lift_put s d x : loops_only (m_frames s) = true -> ok_dest d (RLit (LInt 0)) = true ->
+Lemma lift_put s d x : ok_dest d (RLit (LInt 0)) = true ->
   lift (do s' <- put_dest s (dest_param d) x; Ok (advance s')) [] = Next (put_vm s d x 1) [].
 Proof.
-  intros Hf Hd. unfold advance. rewrite (put_dest_ok s d x 1 Hf Hd). reflexivity.
+  intros Hd. unfold advance. rewrite (put_dest_ok s d x 1 Hd). reflexivity.
 Qed.
 
 Lemma zlength1 {A} (a : A) : zlength [a] = 1.
@@ -361,13 +425,13 @@ Lemma c_rval_var y d : c_rval rt mt (RVar y) d = move_ref (PStr y) d. Proof. ref
 Lemma c_rval_reg r d : c_rval rt mt (RReg r) d = move_ref (PReg r) d. Proof. reflexivity. Qed.
 Lemma c_rval_expr e d : c_rval rt mt (RExpr e) d = c_expr rt mt e ++ [I1 OC_POP (dest_param d)]. Proof. reflexivity. Qed.
 
-Lemma c_rval_runs v d : plain_rval mt v = true -> ok_dest d v = true ->
-  forall im ss s x ss1 fuel, sim ss s -> code_at im (m_pc s) (c_rval rt mt v d) ->
+Lemma c_rval_runs_r v d : plain_rval mt v = true -> ok_dest d v = true ->
+  forall im ss s x ss1 fuel, simr ss s -> code_at im (m_pc s) (c_rval rt mt v d) ->
   eval_rval rt mt fuel false ss v = ROk x ss1 ->
   ss1 = ss /\ exists n, esteps n im s = Some (put_vm s d x (zlength (c_rval rt mt v d)), []).
 Proof.
   intros Hp Hd im ss s x ss1 fuel Hsim Hc He.
-  pose proof (ok_dest_weaken d v Hd) as Hd0. pose proof (sim_frames _ _ Hsim) as Hfr.
+  pose proof (ok_dest_weaken d v Hd) as Hd0.
   destruct fuel as [|fuel]; [destruct v; discriminate|].
   assert (Hnp : forall p, move_const p d = [I2 OC_MOVEQ p (dest_param d)]).
   { intros p. destruct d; cbn [ok_dest] in Hd0; try discriminate; reflexivity. }
@@ -388,7 +452,7 @@ Proof.
       apply negb_true_iff in Hd. rewrite Hd. reflexivity. }
     rewrite Hmv in *. cbn [code_at] in Hc. destruct Hc as [Hf _].
     exists 1%nat. apply (estep1 im s _ _ _ Hf). cbn [Machine.exec i_op i_p0 i_p1 I2 read_name bind].
-    rewrite (sim_lookup ss s y Hsim). rewrite zlength1. apply lift_put; assumption.
+    rewrite (simr_lookup ss s y Hsim). rewrite zlength1. apply lift_put; assumption.
   - (* register *)
     injection He as Hx Hs; subst x ss1. split; [reflexivity|]. rewrite c_rval_reg in *.
     assert (Hmv : move_ref (PReg r) d = [I2 OC_MOVE (PReg r) (dest_param d)]).
@@ -396,12 +460,12 @@ Proof.
       apply andb_true_iff in Hd. destruct Hd as [_ Hd]. apply negb_true_iff in Hd. rewrite Hd. reflexivity. }
     rewrite Hmv in *. cbn [code_at] in Hc. destruct Hc as [Hf _].
     exists 1%nat. apply (estep1 im s _ _ _ Hf). cbn [Machine.exec i_op i_p0 i_p1 I2].
-    rewrite (sim_get_reg ss s r Hsim Hp). cbn [bind]. rewrite zlength1. apply lift_put; assumption.
+    rewrite (simr_get_reg ss s r Hsim Hp). cbn [bind]. rewrite zlength1. apply lift_put; assumption.
   - (* expression *)
     apply andb_true_iff in Hp. destruct Hp as [Hsup Hvis].
     destruct (eval_expr_ok rt mt e Hsup fuel false ss x ss1 He) as [Hs1 Ep]. subst ss1. split; [reflexivity|].
     rewrite c_rval_expr in *. apply code_at_app in Hc. destruct Hc as [Hce Hpop]. cbn [code_at] in Hpop. destruct Hpop as [Hfp _].
-    rewrite <- (peval_sim mt e ss s Hsim Hsup Hvis) in Ep.
+    rewrite <- (peval_simr mt e ss s Hsim Hsup Hvis) in Ep.
     destruct (c_expr_pushes_value rt mt e Hsup im s x Hce Ep) as [n Hn].
     exists (n + 1)%nat. replace (@nil event) with (@nil event ++ @nil event) by reflexivity.
     eapply esteps_app; [apply steps_esteps; exact Hn|].
@@ -410,14 +474,19 @@ Proof.
     assert (Hdp : match dest_param d with PReg _ | PStr _ | PLoopVar _ => true | _ => false end = true)
       by (destruct d; cbn [ok_dest] in Hd0; try discriminate; reflexivity).
     set (s1 := with_stack (pushed s x (zlength (c_expr rt mt e))) (m_stack s)).
-    assert (Hf1 : loops_only (m_frames s1) = true) by exact Hfr.
-    pose proof (put_dest_ok s1 d x 1 Hf1 Hd0) as Hput. unfold advance.
+    pose proof (put_dest_ok s1 d x 1 Hd0) as Hput. unfold advance.
     destruct (dest_param d) eqn:Edp; try discriminate;
       (destruct (put_dest s1 _ x) as [s2|er2] eqn:E2; cbn [bind] in Hput |- *; [|discriminate];
        cbn [lift]; inversion Hput as [Hs2]; rewrite Hs2; f_equal;
-       destruct d; try discriminate; unfold put_vm, s1, pushed, with_stack; cbn;
+       destruct d as [r0|y0|lv0|]; try discriminate; unfold put_vm, s1, pushed, with_stack; cbn;
+       try (destruct (put_var (m_globals s) (m_frames s) y0 x));
        unfold zlength; rewrite app_length; cbn [length]; rewrite Nat2Z.inj_add; f_equal; cbn; lia).
 Qed.
+Lemma c_rval_runs v d : plain_rval mt v = true -> ok_dest d v = true ->
+  forall im ss s x ss1 fuel, sim ss s -> code_at im (m_pc s) (c_rval rt mt v d) ->
+  eval_rval rt mt fuel false ss v = ROk x ss1 ->
+  ss1 = ss /\ exists n, esteps n im s = Some (put_vm s d x (zlength (c_rval rt mt v d)), []).
+Proof. intros Hp Hd im ss s x ss1 fuel Hsim. exact (c_rval_runs_r v d Hp Hd im ss s x ss1 fuel (sim_simr _ _ Hsim)). Qed.
 End Sim2.
 
 (* ---------- stores preserve the correspondence ---------- *)
@@ -435,10 +504,26 @@ Proof.
   apply agree_set_hidden; assumption.
 Qed.
 
+Lemma assign_other_fields ss y x : s_regs (assign ss y x) = s_regs ss /\ s_world (assign ss y x) = s_world ss /\ s_trace (assign ss y x) = s_trace ss.
+Proof. unfold assign. destruct (s_locals ss) as [l|]; [destruct (env_has l y); [|destruct (env_has (s_globals ss) y)]|]; repeat split. Qed.
+
 Lemma sim_put_var ss s y x k : sim ss s -> sim (assign ss y x) (put_vm s (DVar y) x k).
 Proof.
-  intros H. destruct H as [Hr Hf Hg Hfr Hl Hw Hu]. unfold assign. rewrite Hl. constructor; cbn; try assumption; try reflexivity.
-  rewrite Hg. reflexivity.
+  intros H. destruct H as [Hr Hf Hg Hv Hst Hw Hu].
+  pose proof (put_var_refines (m_globals s) (m_frames s) y x Hst) as Hp.
+  pose proof (sem_assign_is_scope_assign ss y x) as Ha.
+  destruct (assign_other_fields ss y x) as [Er [Ew Et]].
+  cbn [put_vm]. destruct (put_var (m_globals s) (m_frames s) y x) as [g' fs'] eqn:Ep. destruct Hp as [Hsc Hs'].
+  unfold scope_of in Hsc. rewrite Hg, Hv, <- Ha in Hsc. injection Hsc as Hg' Hv'.
+  constructor; cbn [m_regs m_globals m_frames m_world m_unnamed]; rewrite ?Er, ?Ew; assumption.
+Qed.
+
+Lemma put_vm_var_pc s y x k : m_pc (put_vm s (DVar y) x k) = m_pc s + k.
+Proof. cbn [put_vm]. destruct (put_var (m_globals s) (m_frames s) y x). reflexivity. Qed.
+Lemma put_vm_var_stack_fr s y x k : settled (m_frames s) = true -> (m_stack (put_vm s (DVar y) x k), fr (put_vm s (DVar y) x k)) = (m_stack s, fr s).
+Proof.
+  intros Hs. pose proof (erase_put_var (m_globals s) (m_frames s) y x Hs) as He. unfold fr. cbn [put_vm].
+  destruct (put_var (m_globals s) (m_frames s) y x) as [g fs]. cbn [snd] in He. cbn [m_stack m_frames]. rewrite He. reflexivity.
 Qed.
 
 (* a hidden register can be set to anything *)
@@ -485,7 +570,7 @@ Variable mt : mtable.
 
 Definition simulates (im : image) (ss : sstate) (s : mstate) (ss' : sstate) (code : program) : Prop :=
   exists n s' evs, esteps n im s = Some (s', evs) /\ sim ss' s' /\ m_pc s' = m_pc s + zlength code /\
-                   (m_stack s', m_frames s') = (m_stack s, m_frames s) /\ rev (s_trace ss') = rev (s_trace ss) ++ evs.
+                   (m_stack s', fr s') = (m_stack s, fr s) /\ rev (s_trace ss') = rev (s_trace ss) ++ evs.
 
 (* the registers a script sets by name *)
 Definition script_reg (r : register) : bool :=
@@ -552,7 +637,7 @@ Proof.
   destruct (c_rval_runs rt mt v (DVar y) Hp Hd im ss s x s1 fuel Hsim Hc Ev) as [Hs1 [n Hn]]. subst s1.
   injection He as He. subst ss'. exists n, (put_vm s (DVar y) x (zlength (c_rval rt mt v (DVar y)))), [].
   split; [exact Hn|]. split; [apply sim_put_var; exact Hsim|].
-  split; [reflexivity|]. split; [reflexivity|]. rewrite app_nil_r. unfold assign. rewrite (sim_locals _ _ Hsim). reflexivity.
+  split; [apply put_vm_var_pc|]. split; [apply put_vm_var_stack_fr; exact (sim_settled _ _ Hsim)|]. rewrite app_nil_r. destruct (assign_other_fields ss y x) as [_ [_ Et]]. rewrite Et. reflexivity.
 Qed.
 End Sim3.
 
@@ -683,7 +768,7 @@ Lemma dev_sim (f : regfile -> world -> dres) :
   (forall a b w, agree a b -> f a w = rebase a (f b w)) ->
   forall ss s ss1, sim ss s -> dev_step ss (f (s_regs ss) (s_world ss)) = ROk tt ss1 ->
   exists s1 evs, dev_outcome s (f (m_regs s) (m_world s)) = Next s1 evs /\ sim ss1 s1 /\ m_pc s1 = m_pc s + 1 /\
-                 (m_stack s1, m_frames s1) = (m_stack s, m_frames s) /\ rev (s_trace ss1) = rev (s_trace ss) ++ evs.
+                 (m_stack s1, fr s1) = (m_stack s, fr s) /\ rev (s_trace ss1) = rev (s_trace ss) ++ evs.
 Proof.
   intros Hresp ss s ss1 Hsim Hd.
   pose proof (Hresp (m_regs s) (s_regs ss) (s_world ss) (sim_regs _ _ Hsim)) as Hvm.
@@ -790,13 +875,13 @@ Proof.
   apply (estep1 im s _ _ _ Hf). change (PReg r) with (dest_param (DReg r)).
   assert (Hok : ok_dest (DReg r) (RLit (LInt 0)) = true) by (cbn [ok_dest]; rewrite Hw; reflexivity).
   rewrite (exec_moveq im s p (DReg r) v Hok Hp).
-  apply lift_put; [exact (sim_frames _ _ Hsim)|exact Hok].
+  apply lift_put; exact Hok.
 Qed.
 
 Lemma sim_one_target (c : bool) k n im ss s ss1 : sim ss s ->
   code_at im (m_pc s) [I2 OC_MOVEQ (PStr n) (PReg R_NAME); I2 OC_MOVEQ (POperand (kind_operand k)) (PReg R_OPERAND); I0 (cmd_op c)] ->
   dev_step ss (target_cmd k c n (s_regs ss) (s_world ss)) = ROk tt ss1 ->
-  exists s1 evs, esteps 3 im s = Some (s1, evs) /\ sim ss1 s1 /\ m_pc s1 = m_pc s + 3 /\ (m_stack s1, m_frames s1) = (m_stack s, m_frames s) /\
+  exists s1 evs, esteps 3 im s = Some (s1, evs) /\ sim ss1 s1 /\ m_pc s1 = m_pc s + 3 /\ (m_stack s1, fr s1) = (m_stack s, fr s) /\
                  rev (s_trace ss1) = rev (s_trace ss) ++ evs.
 Proof.
   intros Hsim Hc Hd. cbn [code_at] in Hc. destruct Hc as [Hf1 [Hf2 [Hf3 _]]].
@@ -821,7 +906,7 @@ Lemma sim_oplist (c : bool) l : forallb simple_opnd l = true ->
   forall im ss s ss1 fuel, sim ss s -> code_at im (m_pc s) (c_ops rt mt false (cmd_op c) (OpList l)) ->
   exec_oplist rt mt fuel false ss c l = ROk tt ss1 ->
   exists n s1 evs, esteps n im s = Some (s1, evs) /\ sim ss1 s1 /\ m_pc s1 = m_pc s + zlength (c_ops rt mt false (cmd_op c) (OpList l)) /\
-                   (m_stack s1, m_frames s1) = (m_stack s, m_frames s) /\ rev (s_trace ss1) = rev (s_trace ss) ++ evs.
+                   (m_stack s1, fr s1) = (m_stack s, fr s) /\ rev (s_trace ss1) = rev (s_trace ss) ++ evs.
 Proof.
   induction l as [|o r IH]; intros Hl im ss s ss1 fuel Hsim Hc He.
   - destruct fuel as [|fuel]; [discriminate|]. rewrite exec_oplist_nil in He. injection He as He. subst ss1.
@@ -852,7 +937,7 @@ Lemma sim_ops (c : bool) ops : simple_ops ops = true ->
   forall im ss s ss1 fuel, sim ss s -> code_at im (m_pc s) (c_ops rt mt false (cmd_op c) ops) ->
   exec_ops rt mt fuel false ss c ops = ROk tt ss1 ->
   exists n s1 evs, esteps n im s = Some (s1, evs) /\ sim ss1 s1 /\ m_pc s1 = m_pc s + zlength (c_ops rt mt false (cmd_op c) ops) /\
-                   (m_stack s1, m_frames s1) = (m_stack s, m_frames s) /\ rev (s_trace ss1) = rev (s_trace ss) ++ evs.
+                   (m_stack s1, fr s1) = (m_stack s, fr s) /\ rev (s_trace ss1) = rev (s_trace ss) ++ evs.
 Proof.
   intros Hs im ss s ss1 fuel Hsim Hc He. destruct ops as [| |l]; cbn [simple_ops] in Hs; try discriminate.
   - (* all *)
@@ -909,7 +994,7 @@ Proof.
   set (s0 := put_vm s (DReg R_POWER) (VBool on) 1).
   assert (E0 : esteps 1 im s = Some (s0, [])).
   { apply (estep1 im s _ _ _ Hf0). change (PReg R_POWER) with (dest_param (DReg R_POWER)).
-    rewrite (exec_moveq im s (PBool on) (DReg R_POWER) (VBool on) eq_refl eq_refl). apply lift_put; [exact (sim_frames _ _ Hsim)|reflexivity]. }
+    rewrite (exec_moveq im s (PBool on) (DReg R_POWER) (VBool on) eq_refl eq_refl). apply lift_put; reflexivity. }
   assert (Hs0 : sim ss0 s0) by (apply sim_put_reg_visible; [exact Hsim|reflexivity]).
   assert (Hf1' : fetch im (m_pc s0) = Some (I0 OC_WAIT)) by exact Hf1.
   destruct (wait_sim im ss0 s0 sa Hs0 Hf1' Ew) as (e1 & E1 & Hs1 & Ht1).
@@ -1014,7 +1099,7 @@ Qed.
 End Sim9.
 
 (* ---------- whole programs ---------- *)
-Definition not_routine (i : instr) : bool := match i_op i with OC_ROUTINE => false | _ => true end.
+Definition not_routine (i : instr) : bool := match i_op i with OC_ROUTINE | OC_END => false | _ => true end.
 
 Lemma load_go_no_routine p : forallb not_routine p = true ->
   forall R M nR tbl, load_go p None R M nR tbl = (R, rev p ++ M, tbl).
